@@ -99,8 +99,8 @@ CLAIMED['C17'] = dict(
 CLAIMED['C10'] = dict(
     engine='E2+E1',
     text='SMT validity plus bounded model checking. E2: PitchPositionReferenceSystem.compute_position, PositionInStaff.line/space/is_line and the integer assignments (distance, idx, octs) of gkern_to_g_clef_pitch are translated from their current source and the position lemma is unsat-checked for EVERY integer octave, base pitch and staff position (5 queries). '
-         'E1: pitch_to_gkern_string on the full 7 clefs x 5 octave marks x 7 letters x 5 accidentals x octaves 0..8 grid (11 025 solver-enumerated cases: same position under G2, G2 identity, bottom line -> e, one step up, argument untouched); documents with clef changes mid-score, chords, a split with staggered clef changes and a join: akern/aekern compared cell by cell with kern/ekern converted under the clef in force on each spine path (reference spine-path model).',
-    note=NOTE + 'Positions are anchored at the clef\'s own bottom_line(), as the property words it. One open known finding (natural sign / display suffix counted as pitch letters).',
+         'E1: pitch_to_gkern_string on the full 7 clefs x 5 octave marks x 7 letters x 5 accidentals x octaves 0..8 grid (11 025 solver-enumerated cases: same position under G2, G2 identity, bottom line -> e, one step up, argument untouched); documents with clef changes mid-score, chords, a split with staggered clef changes and a join: akern/aekern compared cell by cell with kern/ekern converted under the clef in force on each spine path (reference spine-path model); (d) single notes and chord notes with a natural sign or any of the 11 accidental-display suffixes through loads -> dumps(akern / aekern): letters moved, accidental and suffix unchanged.',
+    note=NOTE + 'Positions are anchored at the clef\'s own bottom_line(), as the property words it.',
     technique='AST->z3 integer translation of the staff-position kernels (unsat for all octaves) + CrossHair-engine enumeration of the clef/pitch grid and of documents against a text-level clef-in-force model',
     design='5 C10')
 
@@ -112,7 +112,7 @@ CLAIMED['C15'] = dict(
 
 CLAIMED['C13'] = dict(
     text=BMC + 'C13: (a) Exporter.export_string is executed with SYMBOLIC spine-id bits (or None), spine-type bits and category bits at once under each of the six encodings, on documents with three spines, a chord, a split with a clef change and a join; the export must equal the cell model rendered under (encoding, category predicate, column predicate) - the three single-option transformations act on independent components of that state, so their composition is order independent by construction; (b) every keyword passed as None or as its documented default equals omitting it, alone and next to one other non-default option, in both call orders; (c) the text exported for a cell is independent of its neighbours for every encoding and four exclusions.',
-    note=NOTE + 'In C13.a six categories vary and the rest are selected (all 2^37 selections per document are C05.a); from/to_measure combinations are C07/C08. One open known finding shared with C10 (natural sign in agnostic encodings).',
+    note=NOTE + 'In C13.a six categories vary and the rest are selected (all 2^37 selections per document are C05.a); from/to_measure combinations are C07/C08.',
     technique='CrossHair-engine symbolic execution of the exporter with symbolic spine-id / spine-type / category containers x z3-enumerated encodings against a state-based cell model',
     design='5 C13')
 
